@@ -648,6 +648,74 @@ func C18(r *vf.Run) {
 			r.CellN("callbacks-in-progress-at-once", int64(atomic.LoadInt32(&arrived)))
 		}
 	}
+	// a memory map that changes under the running program: every CPU's WDM handler swaps the device
+	// behind the very segment it is executing from (a mapper bank switch), while the other CPUs run their
+	// own loops; which code each CPU executes next is its own business
+	{
+		G := 16
+		steps := r.N(20000, 200000)
+		type bsActor struct {
+			c     cpu65c816.CPU
+			bus   *bus.Bus
+			rom   [2]*fastMem
+			ram   *fastMem
+			which int
+			swaps int
+		}
+		acts := make([]*bsActor, G)
+		for i := range acts {
+			a := &bsActor{ram: &fastMem{data: make([]byte, 1<<16), limit: 1 << 62}}
+			b, _ := bus.New()
+			if err := b.Attach(a.ram, "ram", 0, 0xFFFF); err != nil {
+				panic(err)
+			}
+			for k := 0; k < 2; k++ {
+				a.rom[k] = &fastMem{data: make([]byte, 1<<16), limit: 1 << 62}
+			}
+			// bank A at $00:8000: WDM #i ; INX ; BRA $8000        bank B: WDM #i ; INY ; BRA $8000
+			copy(a.rom[0].data[0x8000:], []byte{0x42, byte(i), 0xE8, 0x80, 0xFB})
+			copy(a.rom[1].data[0x8000:], []byte{0x42, byte(i), 0xC8, 0x80, 0xFB})
+			a.bus = b
+			acts[i] = a
+		}
+		runBS := func(i int) uint64 {
+			a := acts[i]
+			a.which, a.swaps = 0, 0
+			if err := a.bus.Attach(a.rom[0], "rom", 0x8000, 0x800F); err != nil {
+				panic(err)
+			}
+			a.c.Init(a.bus)
+			a.c.RK, a.c.PC, a.c.SP = 0, 0x8000, 0x01FF
+			a.c.E, a.c.M, a.c.X = 0, 1, 0
+			a.c.RX, a.c.RY = 0, 0
+			a.c.OnWDM = func(b byte) {
+				if a.swaps%3 != 2 { // two swaps out of three traps
+					a.which ^= 1
+					_ = a.bus.Attach(a.rom[a.which], "rom", 0x8000, 0x800F)
+				}
+				a.swaps++
+			}
+			for s := 0; s < steps; s++ {
+				a.c.Step()
+			}
+			a.c.OnWDM = nil
+			return mixU64(mixU64(1469598103934665603, uint64(a.c.RX)<<16|uint64(a.c.RY)), a.c.AllCycles)
+		}
+		solo := make([]uint64, G)
+		for i := range solo {
+			solo[i] = runBS(i)
+		}
+		conc := make([]uint64, G)
+		vf.Parallel(G, G, func(w, i int) { conc[i] = runBS(i) })
+		for i := range conc {
+			if conc[i] != solo[i] {
+				r.Fail("result-differs-from-solo", fmt.Sprintf("CPU %d of %d, each switching the device behind the segment it executes from while the others run: digest %016x, %016x alone", i, G, conc[i], solo[i]), nil)
+				break
+			}
+		}
+		r.Eval(int64(2 * G * steps))
+		r.CellN("bank-switching-in-parallel", int64(G))
+	}
 	// arithmetic in steady state: every goroutine's own CPU runs a long decimal counting loop (SED, then
 	// ADC/SBC with a handful of operands it keeps returning to), all at the same time. No callback, no
 	// allocation, nothing but the ALU: what one CPU computes may not depend on what the others compute.
